@@ -1253,16 +1253,25 @@ func (fr *Frame) appendOp(st *State, call ssa.CallInstruction, argVals []ssa.Val
 		vc.needFieldAxioms(et)
 	}
 	vc.needElemAxioms()
+	// one new memory version per key (several leaves may share a key, e.g. the string fields of a struct)
+	olds, news := map[string]Term{}, map[string]Term{}
 	for _, lf := range leaves {
+		if _, ok := news[lf.key]; ok {
+			continue
+		}
 		old := vc.getMem(st, lf.key, "(Array Ref "+lf.sort+")")
 		nm := vc.newMemVersion(lf.key)
 		st.mem[lf.key] = nm
+		olds[lf.key], news[lf.key] = old, nm
 		nbb := nb
 		vc.havocs = append(vc.havocs, havocEvent{key: lf.key, old: old, new: nm, pos: len(vc.sc.items), pred: func(a Term) Term { return Eq(sx("root", a), nbb) }})
+	}
+	for _, lf := range leaves {
+		old, nm := olds[lf.key], news[lf.key]
 		// old part
 		src := lf.addr(sx("elem", vc.sptr(s), "?i"))
 		dst := lf.addr(sx("elem", nb, "?i"))
-		vc.sc.Def(fmt.Sprintf("(forall ((?i Int)) (! (=> (and (<= 0 ?i) (< ?i (s-len %s))) (= (select %s %s) (select %s %s))) :pattern (%s)))", s, nm, dst, old, src, dst))
+		vc.sc.Def(fmt.Sprintf("(forall ((?i Int)) (! (=> (and (<= 0 ?i) (< ?i (s-len %s))) (= (select %s %s) (select %s %s))) :pattern (%s) :pattern (%s)))", s, nm, dst, old, src, dst, src))
 		// appended part
 		if constN >= 0 && constN <= 6 {
 			for j := int64(0); j < constN; j++ {
